@@ -112,7 +112,9 @@ func (p *IdentityProvider) logoutHandleFunc(w http.ResponseWriter, r *http.Reque
 		w,
 		response.makeSuccessfulLogoutResponse(p.TimeFormat),
 	)
-	logging.Info(fmt.Sprintf("logout request for user %s", logoutRequest.NameID.Text))
+	if logoutRequest.NameID != nil {
+		logging.Info(fmt.Sprintf("logout request for user %s", logoutRequest.NameID.Text))
+	}
 }
 
 func getLogoutRequestFromRequest(r *http.Request) (*LogoutRequestForm, error) {
